@@ -1,6 +1,6 @@
 #!/bin/bash
 # Determinism self-test of the machinery (not part of any property verdict):
-# N seeds per property, each executed in separate processes at GOMAXPROCS 1, 4 and 16 (twice at 16),
+# N seeds per property, each executed in 8 separate processes (GOMAXPROCS 1, 1, 4, 4, 16, 16, 16, 16),
 # event-log hashes must be identical. Usage: ./selftest.sh [N] [props...]
 cd "$(dirname "$0")"
 N=${1:-10}; shift
@@ -9,13 +9,13 @@ TMP=$(mktemp -d /tmp/selftest.XXXX)
 export SIM_KNOWN=$(python3 -c "import json;print(','.join(k['class'] for k in json.load(open('known_findings.json'))['findings']))")
 fail=0
 for P in $PROPS; do
-  for G in 1 4 16 16b; do
-    ( SIM_PROP=$P SIM_DET=$N VERIF_SEED=${VERIF_SEED:-11} GOMAXPROCS=${G%b} .build/simnet.test -test.run '^TestDeterminism$' 2>/dev/null | grep '^DET' > $TMP/$P-$G.txt ) &
+  for G in 1 1b 4 4b 16 16b 16c 16d; do
+    ( SIM_PROP=$P SIM_DET=$N VERIF_SEED=${VERIF_SEED:-11} GOMAXPROCS=${G%[bcd]} .build/simnet.test -test.run '^TestDeterminism$' 2>/dev/null | grep '^DET' > $TMP/$P-$G.txt ) &
   done
   wait
   u=$(md5sum $TMP/$P-*.txt | awk '{print $1}' | sort -u | wc -l)
   l=$(wc -l < $TMP/$P-1.txt)
-  if [ "$u" != "1" ] || [ "$l" != "$N" ]; then echo "NONDETERMINISTIC $P (distinct=$u lines=$l)"; diff $TMP/$P-1.txt $TMP/$P-16.txt | head -4; fail=1; else echo "deterministic $P: $N seeds x 4 processes"; fi
+  if [ "$u" != "1" ] || [ "$l" != "$N" ]; then echo "NONDETERMINISTIC $P (distinct=$u lines=$l)"; diff $TMP/$P-1.txt $TMP/$P-16.txt | head -4; fail=1; else echo "deterministic $P: $N seeds x 8 processes"; fi
 done
 rm -rf $TMP
 exit $fail
